@@ -32,6 +32,7 @@ func writeChunk(c IndexChunk, ss *selfSeed, f *os.File, blocksize uint64, s Stor
 	// into the selfSeed.
 	if segment := ss.getChunk(c.ID); segment != nil {
 		copied, cloned, err := segment.WriteInto(f, c.Start, c.Size, blocksize, isBlank)
+		verifYield("asm.chunk", "start", c.Start, "src", "self", "err", err != nil)
 		if err != nil {
 			return err
 		}
@@ -50,6 +51,7 @@ func writeChunk(c IndexChunk, ss *selfSeed, f *os.File, blocksize uint64, s Stor
 		}
 		sum := Digest.Sum(b)
 		if sum == c.ID {
+			verifYield("asm.chunk", "start", c.Start, "src", "inplace", "err", false)
 			// Record we kept this chunk in the file (when using in-place extract)
 			stats.incChunksInPlace()
 			return nil
@@ -74,6 +76,7 @@ func writeChunk(c IndexChunk, ss *selfSeed, f *os.File, blocksize uint64, s Stor
 	if _, err = f.WriteAt(b, int64(c.Start)); err != nil {
 		return err
 	}
+	verifYield("asm.chunk", "start", c.Start, "src", "store", "err", false)
 	return nil
 }
 
@@ -164,7 +167,10 @@ func AssembleFile(ctx context.Context, name string, idx Index, s Store, seeds []
 		}
 		defer f.Close()
 		g.Go(func() error {
+			defer verifYield("asm.exit")
+			verifYield("asm.idle")
 			for job := range in {
+				verifYield("asm.job", "first", job.segment.first, "last", job.segment.last, "seed", job.source != nil)
 				pb.Add(job.segment.lengthChunks())
 				if job.source != nil {
 					// If we have a seedSegment we expect 1 or more chunks between
@@ -173,6 +179,7 @@ func AssembleFile(ctx context.Context, name string, idx Index, s Store, seeds []
 					offset := job.segment.start()
 					length := job.segment.lengthBytes()
 					copied, cloned, err := job.source.WriteInto(f, offset, length, blocksize, isBlank)
+					verifYield("asm.copied", "first", job.segment.first, "err", err != nil)
 					if err != nil {
 						return err
 					}
@@ -187,6 +194,7 @@ func AssembleFile(ctx context.Context, name string, idx Index, s Store, seeds []
 							return err
 						}
 						sum := Digest.Sum(b)
+						verifYield("asm.rehash", "start", c.Start, "ok", sum == c.ID)
 						if sum != c.ID {
 							if options.InvalidSeedAction == InvalidSeedActionRegenerate {
 								// Try harder before giving up and aborting
@@ -205,6 +213,7 @@ func AssembleFile(ctx context.Context, name string, idx Index, s Store, seeds []
 					// Record this segment's been written in the self-seed to make it
 					// available going forward
 					ss.add(job.segment)
+					verifYield("asm.idle")
 					continue
 				}
 
@@ -225,6 +234,7 @@ func AssembleFile(ctx context.Context, name string, idx Index, s Store, seeds []
 				// self-seed, we still need to record it as being written, otherwise
 				// the self-seed position pointer doesn't advance as we expect.
 				ss.add(job.segment)
+				verifYield("asm.idle")
 			}
 			return nil
 		})
@@ -235,8 +245,10 @@ func AssembleFile(ctx context.Context, name string, idx Index, s Store, seeds []
 	seq := NewSeedSequencer(idx, seeds...)
 	plan := seq.Plan()
 	for {
+		verifPlan(attempt, plan)
 		validatingPrefix := fmt.Sprintf("Attempt %d: Validating ", attempt)
 		if err := plan.Validate(ctx, options.N, NewProgressBar(validatingPrefix)); err != nil {
+			verifYield("asm.invalid", "attempt", attempt)
 			// This plan has at least one invalid seed
 			switch options.InvalidSeedAction {
 			case InvalidSeedActionBailOut:
@@ -259,6 +271,7 @@ func AssembleFile(ctx context.Context, name string, idx Index, s Store, seeds []
 			continue
 		}
 		// Found a valid plan
+		verifYield("asm.valid", "attempt", attempt)
 		break
 	}
 
@@ -269,12 +282,15 @@ func AssembleFile(ctx context.Context, name string, idx Index, s Store, seeds []
 
 loop:
 	for _, segment := range plan {
+		verifYield("asm.feed", "first", segment.indexSegment.first)
 		select {
 		case <-ctx.Done():
+			verifYield("asm.leave")
 			break loop
 		case in <- Job{segment.indexSegment, segment.source}:
 		}
 	}
+	verifYield("asm.close")
 	close(in)
 
 	return stats, g.Wait()
